@@ -499,7 +499,8 @@ def run_tlc(work, module, cfg, workers=8, timeout=600, simulate=None, extra=None
     if heap:
         cmd.append("-Xmx" + heap)
     cmd += ["-Xss64m", "-cp", "/opt/veriftools/tla/tla2tools.jar:/opt/veriftools/tla/CommunityModules-deps.jar",
-            "tlc2.TLC", "-workers", str(workers), "-metadir", os.path.join(d, "meta"), "-config", "run.cfg"]
+            "tlc2.TLC", "-workers", str(workers), "-metadir", os.path.join(d, "meta"), "-config", "run.cfg",
+            "-maxSetSize", "100000000"]
     if not deadlock:
         cmd.append("-deadlock")
     if coverage:
